@@ -159,6 +159,16 @@ class Res:
         return f"Res({self.label},{self.cls})"
 
 
+class ResErr(Exception):
+    """A failure delivered as a *returned* exception instance (gather(return_exceptions=True), Future.exception())."""
+
+    def __init__(self, label: str, cls: str, retry_after=None) -> None:
+        super().__init__(label)
+        self.label = label
+        self.cls = cls
+        self.retry_after = retry_after
+
+
 class Aw:
     """An awaitable that is not a coroutine (like a Future or an object with __await__)."""
 
@@ -359,6 +369,22 @@ class FalsySpyBreaker(SpyBreaker):
 
 
 # ---------------------------------------------------------------------------
+class _BoundCtx:
+    def __init__(self, fn):
+        self._fn = fn
+
+    def delay(self, ctx):
+        return self._fn(ctx)
+
+
+class _BoundLegacy:
+    def __init__(self, fn):
+        self._fn = fn
+
+    def delay(self, attempt, klass, prev_sleep_s):
+        return self._fn(attempt, klass, prev_sleep_s)
+
+
 class _SizedStrategy:
     def __init__(self, fn):
         self._fn = fn
@@ -478,6 +504,9 @@ class Env:
     # -- time-consuming primitives ---------------------------------------
     def spend(self, us: int) -> None:
         self.clock.advance(us)
+        lp = getattr(self, "loop", None)
+        if lp is not None and self.cfg.get("loop_clock_lags"):
+            lp.lag_us += us          # blocking the loop: a loop that keeps its own clock does not see this time pass
 
     async def pause(self, us: int, where: str) -> None:
         """The only place simulated async code suspends."""
@@ -541,7 +570,18 @@ class Env:
         """the operation *of call cid*: a distinct callable per call, so that an attempt of one call that invokes
         another call's operation (state shared between overlapping calls) shows up in the trace"""
         env = self
-        if is_async:
+        if is_async and self.cfg.get("eager_async_op"):
+            # the async operation is a plain callable that does eager work and RETURNS an awaitable: a failure in the
+            # eager part is raised synchronously, before any awaitable exists
+            def op():
+                cs = env.cs()
+                k = cs.n.get("op", 0)
+                st = cs.attempts[min(k, len(cs.attempts) - 1)]
+                env._op_owner = cid
+                if st["kind"] == "exc" and st.get("eager"):
+                    return env.op_sync()
+                return env.op_async()
+        elif is_async:
             async def op():
                 env._op_owner = cid
                 return await env.op_async()
@@ -593,7 +633,7 @@ class Env:
             self.ev("OP_END", k=k, kind="res", cls=step["cls"], obj=None, ra=step.get("ra"), none=True)
             return None
         if kind == "res":
-            r = Res("R" + lab, step["cls"], step.get("ra"))
+            r = (ResErr if step.get("as_exc") else Res)("R" + lab, step["cls"], step.get("ra"))
             cs.objects[r.label] = r
             self.ev("OP_END", k=k, kind="res", cls=step["cls"], obj=r.label, ra=step.get("ra"))
             return r
@@ -719,6 +759,15 @@ class Env:
 
     def _classification(self, cs, cls, ra):
         shape = self.cfg.get("cls_shape", "enum")
+        if shape == "obj_shared":
+            # the classifier answers with module-level constants: the very same Classification object every time
+            key = (cls, ra)
+            cache = self.__dict__.setdefault("_shared_cls", {})
+            c = cache.get(key)
+            if c is None:
+                c = cache[key] = Classification(klass=ErrorClass[cls], retry_after_s=None if ra is None else ra / 1e6)
+            cs.last_cls_obj = c
+            return c
         if shape in ("obj", "obj_details") or ra is not None:
             c = Classification(klass=ErrorClass[cls], retry_after_s=None if ra is None else ra / 1e6,
                                **({"details": {"realm": "api", "code": cls.lower()}} if shape == "obj_details" else {}))
@@ -738,7 +787,7 @@ class Env:
             if f is not None:
                 raise f
             return self._classification(cs, cls, ra)
-        if isinstance(result, Res):
+        if isinstance(result, (Res, ResErr)):
             self.ev("RCLASSIFY", obj=result.label, cls=result.cls, i=i)
             f = self.fault("result_classifier", i)
             if f is not None:
@@ -779,6 +828,9 @@ class Env:
                 env.ev("STRAT_FB", which=which, what="success")
             strategy.record_failure = record_failure
             strategy.record_success = record_success
+        if self.cfg.get("strat_shape") == "bound":
+            # every strategy is the bound method `delay` of another instance of ONE class
+            strategy = (_BoundCtx(strategy) if style != "legacy" else _BoundLegacy(strategy)).delay
         if self.cfg.get("strat_shape") == "sized" and style != "legacy":
             # a strategy *object* that is also an (empty) container -- e.g. a schedule / history-backed strategy: falsy, callable
             strategy = _SizedStrategy(strategy)
